@@ -30,14 +30,16 @@ Definition all_eqb (a b : option (kvs * list bytes * Z)) : bool :=
   end.
 
 (* ---------------- correspondence: the model's getters = the implementation's ---------------- *)
-Definition robs (r : resp) (probes : list bytes) (want_all : bool) : hobs :=
-  HObs (map (fun k => (RPeek r k, RPeekAll r k)) probes)
+(* the probe keys are canonicalised once per case (cprobes = map getHeaderKeyBytes probes): Peek / PeekAll normalise with
+   the header's own flag, which every step checks to be the flag of the case *)
+Definition robs (r : resp) (cprobes : list bytes) (want_all : bool) : hobs :=
+  HObs (map (fun c => (Rpeek r c, RpeekAll r c)) cprobes)
        [RContentType r; RContentEncoding r; RServer r] (RContentLength r) (RConnectionClose r)
        (if want_all then Some (RAll r, RPeekKeys r, RLen r) else None).
 
-Definition qobs (q : req) (probes : list bytes) (want_all : bool) : req * hobs :=
+Definition qobs (q : req) (cprobes : list bytes) (want_all : bool) : req * hobs :=
   let q' := if want_all then fst (QAll q) else q in
-  (q', HObs (map (fun k => (QPeek q k, QPeekAll q k)) probes)
+  (q', HObs (map (fun c => (Qpeek q c, QpeekAll q c)) cprobes)
             [QContentType q; QHost q; QUserAgent q] (QContentLength q) (QConnectionClose q)
             (if want_all then Some (snd (QAll q), snd (QPeekKeys (fst (QAll q))), snd (QLen (fst (QAll q)))) else None)).
 
@@ -47,29 +49,31 @@ Definition hobs_eqb (a b : hobs) : bool :=
 
 Definition want (o : hobs) : bool := match o_all o with Some _ => true | None => false end.
 
-Fixpoint rcorr (r : resp) (probes : list bytes) (steps : list (hop * hobs)) : bool * resp :=
+Fixpoint rcorr (nonorm : bool) (r : resp) (cprobes : list bytes) (steps : list (hop * hobs)) : bool * resp :=
   match steps with
   | [] => (true, r)
   | (o, ob) :: rest =>
       let r' := rstep29 r o in
-      if hobs_eqb (robs r' probes (want ob)) ob then rcorr r' probes rest else (false, r')
+      if Bool.eqb (hdisableNorm (rh r')) nonorm && hobs_eqb (robs r' cprobes (want ob)) ob
+      then rcorr nonorm r' cprobes rest else (false, r')
   end.
-Fixpoint qcorr (q : req) (probes : list bytes) (steps : list (hop * hobs)) : bool * req :=
+Fixpoint qcorr (nonorm : bool) (q : req) (cprobes : list bytes) (steps : list (hop * hobs)) : bool * req :=
   match steps with
   | [] => (true, q)
   | (o, ob) :: rest =>
       let q1 := qstep29 q o in
-      let '(q2, mo) := qobs q1 probes (want ob) in
-      if hobs_eqb mo ob then qcorr q2 probes rest else (false, q2)
+      let '(q2, mo) := qobs q1 cprobes (want ob) in
+      if Bool.eqb (hdisableNorm (qh q1)) nonorm && hobs_eqb mo ob then qcorr nonorm q2 cprobes rest else (false, q2)
   end.
 
 Definition corr_ok (c : c29case) : bool :=
   match c with
   | CHdr isresp nonorm nodefct probes steps final_all _ =>
+      let cprobes := map (fun k => getHeaderKeyBytes k nonorm) probes in
       if isresp then
-        let '(ok, r) := rcorr (rinit nonorm nodefct) probes steps in ok && list_eqb kv_eqb (RAll r) final_all
+        let '(ok, r) := rcorr nonorm (rinit nonorm nodefct) cprobes steps in ok && list_eqb kv_eqb (RAll r) final_all
       else
-        let '(ok, q) := qcorr (qinit nonorm nodefct) probes steps in
+        let '(ok, q) := qcorr nonorm (qinit nonorm nodefct) cprobes steps in
         (* Read() refuses an HTTP/1.1 request without Host: the harness calls SetHost("rt.host") when none is set *)
         let q := match QHost q with [] => QSetHostBytes q (s2b "rt.host") | _ => q end in
         ok && list_eqb kv_eqb (snd (QAll q)) final_all
@@ -93,10 +97,9 @@ Fixpoint forall2b {A B} (f : A -> B -> bool) (l : list A) (r : list B) : bool :=
 
 Definition cl_of (m : mm) : Z := match mm_vals m strContentLength with v :: _ => dec_value v | [] => 0%Z end.
 
-Definition obs_agrees (t : htype) (nonorm nodefct : bool) (probes : list bytes) (m : mm) (o : hobs) : bool :=
-  forall2b (fun k p => let c := canon nonorm k in
-                       beq (fst p) (spec_peek t nodefct m c) && peekall_ok (snd p) (spec_peek_all t nodefct m c))
-           probes (o_probe o)
+Definition obs_agrees (t : htype) (nodefct : bool) (cprobes : list bytes) (m : mm) (o : hobs) : bool :=
+  forall2b (fun c p => beq (fst p) (spec_peek t nodefct m c) && peekall_ok (snd p) (spec_peek_all t nodefct m c))
+           cprobes (o_probe o)
   && list_eqb beq (o_get o)
        (match t with
         | HResp => [spec_peek t nodefct m strContentType; spec_peek t nodefct m strContentEncoding; spec_peek t nodefct m strServer]
@@ -114,10 +117,9 @@ Definition obs_agrees (t : htype) (nonorm nodefct : bool) (probes : list bytes) 
 
 (* "deleting or setting one name never changes the values, or their order, under another name",
    directly on two consecutive observations *)
-Definition untouched (nonorm : bool) (probes : list bytes) (o : hop) (prev cur : hobs) : bool :=
+Definition untouched (nonorm : bool) (cprobes : list bytes) (o : hop) (prev cur : hobs) : bool :=
   let opkey := match o with HSet k _ | HAdd k _ | HDel k => Some (canon nonorm k) | HCopy => None end in
-  forall2b (fun k pc =>
-              let c := canon nonorm k in
+  forall2b (fun c pc =>
               match opkey with
               | Some ck => if beq ck c then true
                            else beq (fst (fst pc)) (fst (snd pc))
@@ -125,18 +127,18 @@ Definition untouched (nonorm : bool) (probes : list bytes) (o : hop) (prev cur :
               | None => beq (fst (fst pc)) (fst (snd pc))
                         && list_eqb beq (snd (fst pc)) (snd (snd pc))
               end)
-           probes (combine (o_probe prev) (o_probe cur))
+           cprobes (combine (o_probe prev) (o_probe cur))
   || negb (Nat.eqb (length (o_probe prev)) (length (o_probe cur))).
 
-Fixpoint prop_steps (t : htype) (nonorm nodefct : bool) (probes : list bytes) (m : mm)
+Fixpoint prop_steps (t : htype) (nonorm nodefct : bool) (cprobes : list bytes) (m : mm)
          (prev : option hobs) (steps : list (hop * hobs)) : bool :=
   match steps with
   | [] => true
   | (o, ob) :: rest =>
       let m' := sstep t nonorm m (sop_of o) in
-      obs_agrees t nonorm nodefct probes m' ob
-      && match prev with Some p => untouched nonorm probes o p ob | None => true end
-      && prop_steps t nonorm nodefct probes m' (Some ob) rest
+      obs_agrees t nodefct cprobes m' ob
+      && match prev with Some p => untouched nonorm cprobes o p ob | None => true end
+      && prop_steps t nonorm nodefct cprobes m' (Some ob) rest
   end.
 
 (* ---- write, then read back ---- *)
@@ -172,6 +174,6 @@ Definition prop_ok (c : c29case) : bool :=
   match c with
   | CHdr isresp nonorm nodefct probes steps final_all reread =>
       let t := if isresp then HResp else HReq in
-      prop_steps t nonorm nodefct probes [] None steps
+      prop_steps t nonorm nodefct (map (canon nonorm) probes) [] None steps
       && roundtrip_ok t nodefct final_all reread
   end.
